@@ -33,6 +33,8 @@
  * [arr, arr + count*size) U {scratch} U {probe} before touching it.
  */
 #include "vrt.h"
+static int nomem_case;
+#define NM(stmt) do { if (nomem_case) vrt_fp_arm(NULL, 0, 1); stmt; if (nomem_case) { if (vrt_fp_ordinal() > 0) VRT_COUNT("nomem.requests-refused"); vrt_fp_disarm(); VRT_COUNT("nomem.calls"); } } while (0)
 #include "cstl/array.h"
 #include "cstl/vector.h"
 #include <string.h>
@@ -373,10 +375,10 @@ static ssize_t do_find_at(struct bench *b, size_t cnt, const unsigned char *prob
     ssize_t r;
     if (b->path == P_ARRAY) {
         VRT_OP4("array.find", "n=%ld probe-key=%ld probe-location=%ld (0 separate, 1 element of the array, 2 element of an equal array, 3 scratch, 4 one past the end) at index %ld", cnt, stored, loc, at);
-        r = cstl_raw_array_find(b->arr, cnt, b->size, probe, cur_cmp, &X);
+        NM(r = cstl_raw_array_find(b->arr, cnt, b->size, probe, cur_cmp, &X));
     } else {
         VRT_OP4("vector.find", "n=%ld probe-key=%ld probe-location=%ld (0 separate, 1 element of the array, 2 element of an equal array, 3 scratch, 4 one past the end) at index %ld", cnt, stored, loc, at);
-        r = cstl_vector_find(&b->v, probe, cur_cmp, &X);
+        NM(r = cstl_vector_find(&b->v, probe, cur_cmp, &X));
     }
     return r;
 }
@@ -385,10 +387,10 @@ static ssize_t do_search_at(struct bench *b, size_t cnt, const unsigned char *pr
     ssize_t r;
     if (b->path == P_ARRAY) {
         VRT_OP4("array.search", "n=%ld probe-key=%ld probe-location=%ld (0 separate, 1 element of the array, 2 element of an equal array, 3 scratch, 4 one past the end) at index %ld", cnt, stored, loc, at);
-        r = cstl_raw_array_search(b->arr, cnt, b->size, probe, cur_cmp, &X);
+        NM(r = cstl_raw_array_search(b->arr, cnt, b->size, probe, cur_cmp, &X));
     } else {
         VRT_OP4("vector.search", "n=%ld probe-key=%ld probe-location=%ld (0 separate, 1 element of the array, 2 element of an equal array, 3 scratch, 4 one past the end) at index %ld", cnt, stored, loc, at);
-        r = cstl_vector_search(&b->v, probe, cur_cmp, &X);
+        NM(r = cstl_vector_search(&b->v, probe, cur_cmp, &X));
     }
     return r;
 }
@@ -644,8 +646,8 @@ static void run_array(struct bench *b, int selidx, const uint32_t *probes, int n
         shadow_reset(b);
         tape_pos = 0;
         VRT_OP2("vector.sort", "first of two sorts of one vector object, algo=%ld n=%ld", selval[selidx], n);
-        if (selidx == S_INLINE) cstl_vector_sort(&b->v, cmp_rec, &X);
-        else __cstl_vector_sort(&b->v, cmp_rec, &X, swap_rec, (cstl_sort_algorithm_t)selval[selidx]);
+        if (selidx == S_INLINE) NM(cstl_vector_sort(&b->v, cmp_rec, &X));
+        else NM(__cstl_vector_sort(&b->v, cmp_rec, &X, swap_rec, (cstl_sort_algorithm_t)selval[selidx]));
         memcpy(b->arr, b->in, bytes);
         VRT_COUNT("sort.second-sort-after-writing-through-retained-pointer");
     }
@@ -655,17 +657,17 @@ static void run_array(struct bench *b, int selidx, const uint32_t *probes, int n
     if (b->path == P_ARRAY && nulltmp) {
         X.scratch = NULL;
         VRT_OP4("array.sort", "(private swap, tmp=NULL) algo=%ld n=%ld keys=0x%lx tape=0x%lx", selval[selidx], n, keycode, tapecode);
-        cstl_raw_array_sort(b->arr, n, size, cmp_rec, &X, swap_priv, NULL, (cstl_sort_algorithm_t)selval[selidx]);
+        NM(cstl_raw_array_sort(b->arr, n, size, cmp_rec, &X, swap_priv, NULL, (cstl_sort_algorithm_t)selval[selidx]));
         VRT_COUNT("sort.null-scratch-with-private-swap");
     } else if (b->path == P_ARRAY) {
         VRT_OP4("array.sort", "algo=%ld n=%ld keys=0x%lx tape=0x%lx", selval[selidx], n, keycode, tapecode);
-        cstl_raw_array_sort(b->arr, n, size, cmp_rec, &X, swap_rec, b->scratch, (cstl_sort_algorithm_t)selval[selidx]);
+        NM(cstl_raw_array_sort(b->arr, n, size, cmp_rec, &X, swap_rec, b->scratch, (cstl_sort_algorithm_t)selval[selidx]));
     } else if (selidx == S_INLINE) {
         VRT_OP4("vector.sort-inline", "algo=%ld n=%ld keys=0x%lx tape=0x%lx", selval[selidx], n, keycode, tapecode);
-        cstl_vector_sort(&b->v, cmp_rec, &X);
+        NM(cstl_vector_sort(&b->v, cmp_rec, &X));
     } else {
         VRT_OP4("vector.sort", "algo=%ld n=%ld keys=0x%lx tape=0x%lx", selval[selidx], n, keycode, tapecode);
-        __cstl_vector_sort(&b->v, cmp_rec, &X, swap_rec, (cstl_sort_algorithm_t)selval[selidx]);
+        NM(__cstl_vector_sort(&b->v, cmp_rec, &X, swap_rec, (cstl_sort_algorithm_t)selval[selidx]));
     }
     vrt_ctr[sel_ctr[selidx]]++;
     VRT_COUNT_N("cmp.calls.sort", X.ncmp);
@@ -736,17 +738,17 @@ static void run_array(struct bench *b, int selidx, const uint32_t *probes, int n
         if (b->path == P_ARRAY && nulltmp) {
             X.scratch = NULL;
             VRT_OP1("array.reverse", "(private swap, tmp=NULL) n=%ld", n);
-            cstl_raw_array_reverse(b->arr, n, size, swap_priv, NULL);
+            NM(cstl_raw_array_reverse(b->arr, n, size, swap_priv, NULL));
             VRT_COUNT("reverse.null-scratch-with-private-swap");
         } else if (b->path == P_ARRAY) {
             VRT_OP1("array.reverse", "n=%ld", n);
-            cstl_raw_array_reverse(b->arr, n, size, swap_rec, b->scratch);
+            NM(cstl_raw_array_reverse(b->arr, n, size, swap_rec, b->scratch));
         } else if (selidx == S_INLINE) {
             VRT_OP1("vector.reverse-inline", "n=%ld", n);
-            cstl_vector_reverse(&b->v);
+            NM(cstl_vector_reverse(&b->v));
         } else {
             VRT_OP1("vector.reverse", "n=%ld", n);
-            __cstl_vector_reverse(&b->v, swap_rec);
+            NM(__cstl_vector_reverse(&b->v, swap_rec));
         }
         if (selidx != S_INLINE) {
             check_shadow(b->save, "reverse.moved-without-swap");
@@ -915,15 +917,15 @@ static void sref_run(struct bench *b, int selidx, const uint32_t *keys, const un
     if (b->path == P_ARRAY && nulltmp) {
         X.scratch = NULL;
         VRT_OP3("array.sort", "(self-referential elements, private swap, tmp=NULL) algo=%ld n=%ld keys=0x%lx", selval[selidx], n, code);
-        cstl_raw_array_sort(b->arr, n, size, cmp_sref, &X, swap_sref_priv, NULL, (cstl_sort_algorithm_t)selval[selidx]);
+        NM(cstl_raw_array_sort(b->arr, n, size, cmp_sref, &X, swap_sref_priv, NULL, (cstl_sort_algorithm_t)selval[selidx]));
         VRT_COUNT("selfref.sort.null-scratch-with-private-swap");
     } else if (b->path == P_ARRAY) {
         VRT_OP3("array.sort", "(self-referential elements) algo=%ld n=%ld keys=0x%lx", selval[selidx], n, code);
-        cstl_raw_array_sort(b->arr, n, size, cmp_sref, &X, swap_sref, b->scratch, (cstl_sort_algorithm_t)selval[selidx]);
+        NM(cstl_raw_array_sort(b->arr, n, size, cmp_sref, &X, swap_sref, b->scratch, (cstl_sort_algorithm_t)selval[selidx]));
         VRT_COUNT("selfref.sort.array-path");
     } else {
         VRT_OP3("vector.sort", "(self-referential elements) algo=%ld n=%ld keys=0x%lx", selval[selidx], n, code);
-        __cstl_vector_sort(&b->v, cmp_sref, &X, swap_sref, (cstl_sort_algorithm_t)selval[selidx]);
+        NM(__cstl_vector_sort(&b->v, cmp_sref, &X, swap_sref, (cstl_sort_algorithm_t)selval[selidx]));
         VRT_COUNT("selfref.sort.vector-path");
         VRT_CHECK(cstl_vector_size(&b->v) == n && cstl_vector_data(&b->v) == (void *)b->arr && cstl_vector_capacity(&b->v) == b->cap,
                   K("sort.vector-geometry-changed"), "sort changed the vector's base/size/capacity");
@@ -973,13 +975,13 @@ static void sref_run(struct bench *b, int selidx, const uint32_t *keys, const un
     if (b->path == P_ARRAY && nulltmp) {
         X.scratch = NULL;
         VRT_OP1("array.reverse", "(self-referential elements, private swap, tmp=NULL) n=%ld", n);
-        cstl_raw_array_reverse(b->arr, n, size, swap_sref_priv, NULL);
+        NM(cstl_raw_array_reverse(b->arr, n, size, swap_sref_priv, NULL));
     } else if (b->path == P_ARRAY) {
         VRT_OP1("array.reverse", "(self-referential elements) n=%ld", n);
-        cstl_raw_array_reverse(b->arr, n, size, swap_sref, b->scratch);
+        NM(cstl_raw_array_reverse(b->arr, n, size, swap_sref, b->scratch));
     } else {
         VRT_OP1("vector.reverse", "(self-referential elements) n=%ld", n);
-        __cstl_vector_reverse(&b->v, swap_sref);
+        NM(__cstl_vector_reverse(&b->v, swap_sref));
     }
     for (i = 0; i < n; i++) {
         uint32_t t, was;
@@ -1524,6 +1526,9 @@ static void run_case(uint64_t idx)
     const struct cdef *c = &cases[idx];
     uint64_t t0 = draws_tape, p0 = draws_prng;
     sref_mode = 0; cur_cmp = cmp_rec; cur_put = put_rec; cur_fix = NULL;     /* a failed case leaves through longjmp */
+    /* sorting, searching and reversing touch the array and the one scratch element only: in every second case these calls run with an
+     * allocator that refuses everything (the vector's own set-up needs memory, so only the calls themselves: NM()) */
+    nomem_case = (int)(idx & 1); if (nomem_case) VRT_COUNT("nomem.cases");
     switch (c->kind) {
     case C_LARGE: case C_DEEP: run_large(c, idx); break;
     case C_EXH:    run_exh(c, idx); break;
@@ -1532,6 +1537,7 @@ static void run_case(uint64_t idx)
     case C_SREF:   run_sref(c, idx); break;
     default:       run_random(c, idx); break;
     }
+    nomem_case = 0;
     VRT_COUNT_N("rand.draws.from-tape", draws_tape - t0);
     VRT_COUNT_N("rand.draws.from-fair-prng", draws_prng - p0);
 }
